@@ -407,6 +407,38 @@ def rule_default_collector(ctx):
                       "`Once::call_once` of the cell's own Once: two threads whose first critical sections overlap both run "
                       "Collector::new, the later write wins, and the participants already registered with the other collector "
                       "are never visited by try_advance (and read another clock)", prog.bodies[v].loc(bi))
+        # the hand-written cell publishes through a flag: the flag is set with release after the slot was written, and read
+        # with acquire before the slot is (mutation sweep 3; no test on x86-64 can see the difference)
+        from .rules_ord import ord_of, has_rel, has_acq
+        nflag = 0
+        for v in sorted(reach):
+            vb = prog.bodies[v]
+            for p in ctx.ex.paths(vb):
+                for e in p.events:
+                    if e.kind != "call" or not e.args:
+                        continue
+                    nt = norm(e.target or "")
+                    if not nt.startswith("std::sync::atomic::Atomic") or nt.split("::")[-1] not in ("load", "store"):
+                        continue      # (every atomic flag of the cell's own code: `reach` stops at the collector itself)
+                    o = [ord_of(a) for a in e.args if ord_of(a) is not None]
+                    if nt.endswith("::store"):
+                        nflag += 1
+                        okf = bool(o) and has_rel(o[0])
+                        r.instance("%s: the initialised flag is set with %s (floor Release)" % (v.split("::")[-1], o[0] if o else "?"), okf)
+                        if not okf:
+                            r.violate(v, "flag-store", "the flag that publishes the default collector is set with ordering %s, weaker "
+                                      "than Release: a thread that sees the flag may read the slot before it was written" % (o[0] if o else "?"),
+                                      e.loc())
+                    elif nt.endswith("::load"):
+                        nflag += 1
+                        okf = bool(o) and has_acq(o[0])
+                        r.instance("%s: the initialised flag is read with %s (floor Acquire)" % (v.split("::")[-1], o[0] if o else "?"), okf)
+                        if not okf:
+                            r.violate(v, "flag-load", "the flag that guards the fast path to the default collector is read with ordering "
+                                      "%s, weaker than Acquire: the slot may be read before its initialisation is visible" % (o[0] if o else "?"),
+                                      e.loc())
+        if nflag < 2 and not r.violations:
+            r.floor_failures.append("EBR-DEFAULT-COLLECTOR: found %d accesses of the cell's initialised flag, expected at least 2" % nflag)
     # HANDLE's initialiser registers with collector()
     init = prog.body("ebr_impl::default::HANDLE::__rust_std_internal_init_fn")
     tg = [c.target for (_, _, c) in init.calls()]
